@@ -285,6 +285,7 @@ func c04(c *Ctx) {
 		c.undecided(r6, "floor", "History implementations not found")
 	}
 	c04PrefixLookupContinues(c, "C04.4/filtered-first-match-continues")
+	c04ReopenOptions(c, "C04.9/reopened-index-keeps-its-options")
 	c04ScanBounds(c, "C04.7/clamped-scan-bound-is-inclusive")
 	c04NodeRefMirrors(c, "C04.8/node-reference-mirrors-child")
 	r := "C04.5/read-pipeline"
@@ -608,5 +609,60 @@ func c04PrefixLookupContinues(c *Ctx, r string) {
 	}
 	if n < 2 {
 		c.undecided(r, "floor", fmt.Sprintf("%d filter applications found in the prefix lookups (store and snapshot confirmed by hand)", n))
+	}
+}
+
+// c04ReopenOptions: after a compaction the indexer closes its tree and opens the compacted one with the options the
+// old tree reports (TBtree.GetOptions). An option that OpenWith reads but GetOptions does not report silently falls back
+// to its default for the rest of the process: without the flush callback the store's memory accounting is never
+// credited again and indexing stalls; without the buffered-data limit the flush cadence changes. Every Options field
+// read by OpenWith is set by GetOptions, except the fields listed with a reason.
+func c04ReopenOptions(c *Ctx, r string) {
+	open := c.mustFn(r, "embedded/tbtree.OpenWith")
+	get := c.mustFn(r, "embedded/tbtree.(*TBtree).GetOptions")
+	if open == nil || get == nil {
+		return
+	}
+	exempt := map[string]string{
+		"cache": "a reopened (compacted) index starts with a private cache: the shared one still holds nodes of the replaced files under the same offsets",
+		"ID":    "only used to key the shared cache, see cache",
+	}
+	read := map[string]bool{}
+	allInstrs(open, true, func(in ssa.Instruction) {
+		if fa, ok := in.(*ssa.FieldAddr); ok && structName(fa.X.Type()) == "Options" && strings.Contains(fa.X.Type().String(), "embedded/tbtree") {
+			read[fieldName(fa.X.Type(), fa.Field)] = true
+		}
+	})
+	// the fields GetOptions sets: through the With* setters it calls (the field each setter stores) or directly
+	set := map[string]bool{}
+	var fieldsStoredBy func(f *ssa.Function, out map[string]bool)
+	fieldsStoredBy = func(f *ssa.Function, out map[string]bool) {
+		allInstrs(f, false, func(in ssa.Instruction) {
+			if st, ok := in.(*ssa.Store); ok {
+				if fa, ok := st.Addr.(*ssa.FieldAddr); ok && structName(fa.X.Type()) == "Options" {
+					out[fieldName(fa.X.Type(), fa.Field)] = true
+				}
+			}
+		})
+	}
+	fieldsStoredBy(get, set)
+	allInstrs(get, false, func(in ssa.Instruction) {
+		if cc := callOf(in); cc != nil {
+			if sc := cc.StaticCallee(); sc != nil && sc.Signature.Recv() != nil && strings.HasPrefix(sc.Name(), "With") && fnInPkgs(sc, []string{"embedded/tbtree"}) {
+				fieldsStoredBy(sc, set)
+			}
+		}
+	})
+	n := 0
+	for _, fld := range sortedKeys(read) {
+		n++
+		if reason, ok := exempt[fld]; ok {
+			c.okTrivial(r, "Options."+fld, c.pos(get.Pos()), "not carried over on purpose: "+reason)
+			continue
+		}
+		c.check(set[fld], r, "Options."+fld, c.pos(get.Pos()), "reported by GetOptions", "OpenWith reads Options."+fld+" but GetOptions does not report it: the index reopened after a compaction runs with the default instead of what the store configured")
+	}
+	if n < 15 {
+		c.undecided(r, "floor", fmt.Sprintf("%d option fields read by OpenWith found", n))
 	}
 }
